@@ -9,6 +9,8 @@ for f in d['findings']:
         continue
     c = f['commit']; name = 'revert_%s_%s' % (f['property'], c)
     dst = os.path.join(V, 'seeded', name); os.makedirs(dst, exist_ok=True)
+    if os.path.exists(os.path.join(dst, 'meta.json')) and 'rebased' in json.load(open(os.path.join(dst, 'meta.json'))):
+        print(name, '(rebased by hand: kept)'); continue
     diff = subprocess.run(['git', '-C', '/repo', 'diff', c, c + '^'], capture_output=True, text=True).stdout
     open(os.path.join(dst, 'patch.diff'), 'w').write(diff)
     mp = os.path.join(dst, 'meta.json'); old = json.load(open(mp)) if os.path.exists(mp) else {}
